@@ -130,7 +130,7 @@ def sweep_scalars(c, rep, model):
         c.nontrivial.add(f"{s['list']}#{s['index']}")
         if not o.startswith("1\t"):
             fails.setdefault((s["list"], s["index"]), []).append((x, d, o))
-    c.corr["search:scalar-exprs-vs-Spec"] = {"cases": len(reqs), "mismatches": sum(len(v) for v in fails.values()),
+    c.cov.setdefault("spec_search", {})["scalar-exprs-vs-Spec"] = {"inputs_evaluated": len(reqs), "inputs_failing_spec": sum(len(v) for v in fails.values()),
                                             "entries": len(by_list), "entries_failing": len(fails)}
     for (lname, idx), fl in sorted(fails.items()):
         s = by_list[(lname, idx)]
@@ -165,7 +165,7 @@ def sweep_casts(c, rep, model):
         c.nontrivial.add(f"{s['list']}#{s['index']}")
         if not o.startswith("1\t"):
             fails.setdefault((s["list"], s["index"]), []).append((x, o))
-    c.corr["search:cast-exprs-vs-Spec.joinConv"] = {"cases": len(reqs), "mismatches": sum(len(v) for v in fails.values()),
+    c.cov.setdefault("spec_search", {})["cast-exprs-vs-Spec.joinConv"] = {"inputs_evaluated": len(reqs), "inputs_failing_spec": sum(len(v) for v in fails.values()),
                                                    "entries": len(by_list), "entries_failing": len(fails)}
     for (lname, idx), fl in sorted(fails.items()):
         s = by_list[(lname, idx)]
@@ -211,7 +211,7 @@ def sweep_casts(c, rep, model):
             c.spec_violation(f"cast-roundtrip:{b}:{pr[5]}:{shape}",
                              f"{b}: {pr[6]} ∘ {pr[5]} does not recover the payload" + (" (an emitted expression is ill-typed)" if shape == "ill-typed" else " (bits are lost)"),
                              {"request": r, "answer": o, "payload_hex": f"{x:x}", "probe": pr[0]})
-    c.corr["search:cast-round-trips"] = {"cases": len(reqs), "mismatches": bad}
+    c.cov.setdefault("spec_search", {})["cast-round-trips"] = {"inputs_evaluated": len(reqs), "inputs_failing_spec": bad}
     return fails
 
 
